@@ -103,6 +103,7 @@ def step (cx : Ctx) (line : String) : String :=
   | "readonly" :: args => Ach.ReadOnly.runLine args
   | "recvalidate" :: args => Ach.GoLiteDriver.run args
   | "batchvalidate" :: args => Ach.GoLiteDriver.run args
+  | "filevalidate" :: args => Ach.GoLiteDriver.run args
   | ["mask", "number", h] =>
     match hexToStr h with
     | some s => bytesToHex (ByteArray.mk (maskNumber s).toArray)
